@@ -169,6 +169,8 @@ def cell_coverage(prog, cd, rep, rule="eq-cell-coverage"):
 def run(prog, rep):
     cd = Codecs(prog)
     cd.flag_errors(rep)
+    from ..codecs import no_stale_derived_state
+    rep.attempt(no_stale_derived_state, prog, cd, rep)
     rep.explanation = (
         "the oracle for 'content' is the writer: every attribute the layout term of C._write reads must take part in C.__eq__ "
         "(eq-coverage) unless __eq__ is byte-level (serialises both operands, faithful by C01); element-wise zip comparisons "
